@@ -71,6 +71,19 @@ def run(h, kind, **p):
     return {"formula": run_formula, "derived": run_derived, "errors": run_errors}[kind](h, **p)
 
 
+def witness_variants(w, params):
+    """counter-models over the uninterpreted Phi often need a far smaller alpha with the real Phi (tails, bca pole):
+    propose the same witness with alpha scaled down by powers of ten"""
+    from fractions import Fraction
+
+    keys = [k for k in w if k.startswith("alpha")]
+    for e in range(1, 16):
+        w2 = dict(w)
+        for k in keys:
+            w2[k] = str(max(Fraction(w[k]) / 10 ** e, Fraction(1, 10 ** 15)))      # keep 1 - alpha/2 < 1 in float64
+        yield w2
+
+
 def _alpha(h, name="alpha"):
     a = h.real(name, float_atom=False)
     h.assume(h.And(a > 0, a < 1))
